@@ -665,7 +665,7 @@ class BasicVisitor(NodeVisitor):
 
     def visit_cls(self, _, visited_children):
         _, _, exp, _ = visited_children
-        return BasicCls(exp if isinstance(exp, AbstractBasicExpression) else None)
+        return BasicCls(exp if isinstance(exp, AbstractBasicConstruct) else None)
 
     def visit_statement2(self, _, visited_children):
         func, _, _, _, exp1, _, _, _, exp2, _, _, _ = visited_children
@@ -1018,7 +1018,7 @@ class BasicVisitor(NodeVisitor):
 
     def visit_hscreen_statement(self, _, visited_children) -> AbstractBasicStatement:
         _, _, exp, _ = visited_children
-        exp = BasicLiteral(0) if not isinstance(exp, AbstractBasicExpression) else exp
+        exp = BasicLiteral(0) if not isinstance(exp, AbstractBasicConstruct) else exp
         return BasicRunCall(
             "run ecb_hscreen",
             BasicExpressionList(
@@ -1031,7 +1031,7 @@ class BasicVisitor(NodeVisitor):
 
     def visit_hcls_statement(self, _, visited_children) -> AbstractBasicStatement:
         _, _, exp, _ = visited_children
-        exp = BasicLiteral(-1) if not isinstance(exp, AbstractBasicExpression) else exp
+        exp = BasicLiteral(-1) if not isinstance(exp, AbstractBasicConstruct) else exp
         return BasicRunCall(
             "run ecb_hcls",
             BasicExpressionList(
